@@ -108,7 +108,18 @@ Theorem C31_bounded_delay_refuted : forall fxR,
        bclosed (pa s') = false /\ handed (pa s') < Z.of_nat (length (gacc (pa s)))).
 Proof. exact bounded_delay_refuted. Qed.
 
+(* "about one second plus reconnection time": reconnect attempts rotate over the sender's address pool, so
+   every address is tried within len(pool) attempts (PARTIAL: dialing itself and its timeouts are not modelled) *)
+Theorem C31_rotation_visits_every_address_partial : forall p i,
+  (ap_head p < length (ap_addrs p))%nat -> (i < length (ap_addrs p))%nat ->
+  exists j, (j < length (ap_addrs p))%nat /\
+            nth j (picks (length (ap_addrs p)) p) 0 = nth i (ap_addrs p) 0.
+Proof. exact rotation_visits_every_address. Qed.
+
 (* ---------- non-vacuity ---------- *)
+Example C31_nonvacuous_rotation : picks 3 (mkAp [7; 8; 9] 1) = [8; 9; 7].
+Proof. vm_compute. reflexivity. Qed.
+
 Definition nv_trace : list step :=
   [PopBegin true; Write 1 16; Wake true; Write 2 20; Wake true; Tick 1000; TimerFire true; Wake true;
    Write 3 16; WriteErr true 1; PopBegin true; WriteOk true].
